@@ -180,7 +180,9 @@ package ast
 //@   call New#0: assert line-in-the-page: arg0 == line
 //@   call New#1: assert line-in-the-page: arg0 == line
 //@   call New#3: assert line-of-the-offending-slot: arg0 == slot__1.Token.Pos.EndLine + 1
+//@   call New#3: assert only-an-undeclared-slot-is-an-error: idx == -1
 //@   call New#2: assert line-of-the-offending-slot: arg0 == slot__1.Token.Pos.EndLine + 1
+//@   call New#2: assert only-an-undeclared-slot-is-an-error: idx == -1
 //@   loop 1: invariant line == comp.Token.Pos.EndLine + 1
 //@   requires prog != nil && forall(k, 0, len(prog.Statements), prog.Statements[k] != nil && refof(prog.Statements[k]) != 0)
 //@   requires WFNode(iface(prog)) && forall(i, 0, len(p.Components), WFNode(iface(p.Components[i])))
